@@ -19,15 +19,25 @@ package pool
 //@   ensures result_1 == nil ==> calls(GetBuf) == 2 && calls(ReleaseBuf) == 1 && arg(ReleaseBuf, 0, 0) == ret(GetBuf, 0) && result_0 == ret(GetBuf, 1)
 //@   ensures result_1 != nil ==> calls(GetBuf) == 1 && calls(ReleaseBuf) == 1 && arg(ReleaseBuf, 0, 0) == ret(GetBuf, 0)
 
-// Pooled timers: GetTimer returns an armed timer with a non-nil channel (assumed here; the pool
-// code itself is not under contract).
-//@ func GetTimer
-//@   nobody
+// Pooled timers (C20: the fallback threshold timer comes from here). A timer goes back to the pool
+// stopped AND drained: if Stop reports that it had already fired, its channel is emptied with a
+// non-blocking receive, so that the next user of the pooled timer cannot see a stale tick.
+// GetTimer hands out a timer that is armed for t and panics rather than reuse an active one.
+//@ func GetTimer [C20]
 //@   log GetTimer
+//@   panics when calls(timerReset) == 1 && ret(timerReset, 0)
 //@   ensures result != nil && result.C != nil
-//@ func ReleaseTimer
-//@   nobody
+//@   ensures calls(timeNewTimer) + calls(timerReset) == 1
+//@   ensures calls(timerReset) == 1 ==> arg(timerReset, 0, 1) == t && result == arg(timerReset, 0, 0)
+//@   ensures calls(timeNewTimer) == 1 ==> arg(timeNewTimer, 0, 0) == t
+//@ func ReleaseTimer [C20]
 //@   log ReleaseTimer
+//@   requires timer != nil
+//@   ensures calls(timerStop) == 1 && arg(timerStop, 0, 0) == timer && calls(poolPut) == 1
+//@   ensures !ret(timerStop, 0) ==> calls(chanRecv) + calls(pollEmpty) == 1
+//@   ensures calls(chanRecv) == 1 ==> arg(chanRecv, 0, 0) == timer.C
+//@   ensures calls(pollEmpty) == 1 ==> arg(pollEmpty, 0, 0) == timer.C
+//@   ensures ret(timerStop, 0) ==> calls(chanRecv) + calls(pollEmpty) == 0
 
 // PackBuffer: the packed message in a pooled buffer of exactly its length.
 //@ func PackBuffer [C14]
